@@ -5,8 +5,9 @@ import re
 
 # firmware style number: optional sign, digits with optional fraction, or leading-dot fraction; no exponent
 NUM = r"[-+]?(?:\d+\.?\d*|\.\d+)"
-WORD = re.compile(r"([A-Za-z])[ ]*(" + NUM + r")?")
-CODE = re.compile(r"[ ]*([GgMmTt])[ ]*(\d+)(?:\.(\d+))?")
+# RS274: blanks and tabs may appear anywhere on a line and do not change its meaning
+WORD = re.compile(r"([A-Za-z])[ \t]*(" + NUM + r")?")
+CODE = re.compile(r"[ \t]*([GgMmTt])[ \t]*(\d+)(?:\.(\d+))?")
 
 
 def tokenize(cmd):
